@@ -67,6 +67,7 @@ func main() {
 			continue
 		}
 		enc.Encode(guard(f, in))
+		w.Flush() // one answer per case on the pipe at once: when the code under test ends the process, the answers so far say during which case
 	}
 }
 
